@@ -79,12 +79,12 @@ FLOORS = {
                  "counters": {"faults_fired": 170000, "identity_checks": 170000,
                               "post_fault_renders": 500000, "cases": 500,
                               "faults_sync": 80000, "faults_async": 80000,
-                              "faults_fresh_env": 25000,
-                              "faults_fresh_env_in_module_body_sync": 8000,
-                              "faults_fresh_env_in_module_body_async": 8000,
-                              "faults_in_i18n_fragment": 12000,
-                              "faults_in_i18n_fragment:newstyle:str": 2500,
-                              "faults_in_i18n_fragment:oldstyle:str": 1500}},
+                              "faults_fresh_env": 45000,
+                              "faults_fresh_env_in_module_body_sync": 9000,
+                              "faults_fresh_env_in_module_body_async": 9000,
+                              "faults_in_i18n_fragment": 20000,
+                              "faults_in_i18n_fragment:newstyle:str": 4000,
+                              "faults_in_i18n_fragment:oldstyle:str": 2400}},
 }
 
 SYNC_APIS = ["render", "generate", "stream"]
